@@ -3,26 +3,37 @@ Driver for C05: runs the reduction model on concrete values with the harness' re
 regressor (a position-sensitive polynomial hash, mirrored in harness/corr/C05.py).
 
   C05 swt <sci> <wl> <fh> <y> <X>
-  C05 run <strategy> <sci> <wl> <fhFit> <fhPred> <t0> <y> <X> <upd> <uy> <uX> <Xp>
+  C05 run <strategy> <sci> <wl> <fhFit> <fhPred> <t0> <y> <X> <upd> <u0> <uy> <uX> <Xp>
+     upd = no | upd | refit (update, batch starting at label u0) | up | uprefit (update_predict)
 
-values: integers | nan | inf | -inf;  lists "a,b,c" ("-" = empty);  row lists "a,b;c,d";  "none".
+values: integers or half-integers ("12", "-3.5") | nan | inf | -inf;  lists "a,b,c" ("-" = empty);  row lists "a,b;c,d";  "none".
 -/
 import SkVerif.Model.Reduce
 import SkVerif.Drv.Parse
 namespace SkVerif.Drv.C05
 open SkVerif SkVerif.Reduce SkVerif.Drv
 
+/-- `num i` is the value `i / 2` (the recording regressor returns half-integers, so that a buffer of
+integer dtype would visibly truncate them) -/
 inductive Val | num (i : Int) | nan | pinf | ninf
   deriving DecidableEq, Repr
 
-def vals : Vals Val := { zero := .num 0, nan := .nan, bad := fun v => match v with | .num _ => false | _ => true }
+def vals : Vals Val :=
+  { zero := .num 0, nan := .nan, bad := fun v => match v with | .num _ => false | _ => true,
+    isnan := fun v => match v with | .nan => true | _ => false }
 
 def showVal : Val → String
-  | .num i => toString i | .nan => "nan" | .pinf => "inf" | .ninf => "-inf"
+  | .num i =>
+    if i % 2 == 0 then toString (i / 2)
+    else (if i < 0 then "-" else "") ++ toString (i.natAbs / 2) ++ ".5"
+  | .nan => "nan" | .pinf => "inf" | .ninf => "-inf"
 
 def parseVal? (s : String) : Option Val :=
   if s == "nan" then some .nan else if s == "inf" then some .pinf else if s == "-inf" then some .ninf
-  else (parseInt? s).map Val.num
+  else match s.splitOn "." with
+    | [a] => (parseInt? a).map fun i => Val.num (2 * i)
+    | [a, "5"] => (parseInt? a).map fun i => Val.num (if a.startsWith "-" then 2 * i - 1 else 2 * i + 1)
+    | _ => none
 
 def parseVals? (s : String) : Option (List Val) :=
   if s == "-" then some [] else (s.splitOn ",").mapM parseVal?
@@ -55,10 +66,10 @@ def hi (acc : Int) (inst : Inst Val) : Int := inst.foldl (fun a var => hl ((a * 
 def sigX (X : List (Inst Val)) : Int := X.foldl hi 17
 
 def hashReg : Regressor Val where
-  train X y := fun inst => .num (hi (hl ((sigX X * 131 + 1) % P) y) inst)
+  train X y := fun inst => .num (2 * hi (hl ((sigX X * 131 + 1) % P) y) inst + 1)
   trainM X Y := fun inst j =>
     let s := Y.foldl (fun a row => hl ((a * 37 + 3) % P) row) ((sigX X * 131 + 2) % P)
-    .num (hi ((s + 1 + (j : Int)) % P) inst)
+    .num (2 * hi ((s + 1 + (j : Int)) % P) inst + 1)
 
 def showVals (l : List Val) : String := if l.isEmpty then "-" else ",".intercalate (l.map showVal)
 def showInst (i : Inst Val) : String := if i.isEmpty then "-" else "|".intercalate (i.map showVals)
@@ -86,15 +97,19 @@ def handle (toks : List String) : String :=
       | .error e => showErr e
       | .ok (yt, Xt) => s!"yt={showRows yt} Xt={showInsts sci Xt}"
     | _, _, _, _, _ => "bad-op"
-  | ["run", s, sci, wl, fhFit, fhPred, t0, y, X, upd, uy, uX, Xp] =>
+  | ["run", s, sci, wl, fhFit, fhPred, t0, y, X, upd, u0, uy, uX, Xp] =>
     match parseStrategy? s, parseSci? sci, parseWl? wl, parseFh? fhFit, parseFh? fhPred, parseInt? t0,
-          parseVals? y, parseRows? X, parseVals? uy, parseRows? uX, parseRows? Xp with
-    | some s, some sci, some wl, some fhFit, some fhPred, some t0, some y, some X, some uy, some uX, some Xp =>
+          parseVals? y, parseRows? X, parseInt? u0, parseVals? uy, parseRows? uX, parseRows? Xp with
+    | some s, some sci, some wl, some fhFit, some fhPred, some t0, some y, some X, some u0, some uy, some uX, some Xp =>
+      let inDomain := decide (t0 ≤ u0) && decide (u0 ≤ t0 + (y.length : Int))   -- overlapping or continuing block
       let updE : Option (Upd Val) :=
         if upd == "no" then some .no
+        else if !inDomain then none
+        else if upd == "up" then (if X.isSome || uX.isSome then none else some (.updPredict u0 uy false))
+        else if upd == "uprefit" then (if X.isSome || uX.isSome then none else some (.updPredict u0 uy true))
         else if X.isSome != uX.isSome then none      -- domain: the batch has X iff fit had X
-        else if upd == "upd" then some (.batch uy uX false)
-        else if upd == "refit" then some (.batch uy uX true)
+        else if upd == "upd" then some (.batch u0 uy uX false)
+        else if upd == "refit" then some (.batch u0 uy uX true)
         else none
       match updE with
       | none => "bad-op"
@@ -105,7 +120,7 @@ def handle (toks : List String) : String :=
           | .error (e, st) => s!"{showErr e}@{showStage st}"
           | .ok out => if out.isEmpty then "-" else ",".intercalate (out.map fun (p : Int × Val) => s!"{p.1}:{showVal p.2}")
         s!"calls={cs} res={rs}"
-    | _, _, _, _, _, _, _, _, _, _, _ => "bad-op"
+    | _, _, _, _, _, _, _, _, _, _, _, _ => "bad-op"
   | _ => "bad-op"
 
 end SkVerif.Drv.C05
